@@ -133,7 +133,10 @@ fn run_transform(input: &[u8], cfg: &TransformConfig, want_trace: bool, trace_ca
                 Err(e) => json!({"status": "err", "err": e.to_string()}),
             };
             o["ts"] = trace_summary(&trace);
-            if want_trace {
+            if want_trace && trace.len() >= trace_cap {
+                // the sink stopped recording: the trace has no end, do not hand it out
+                o["trace_truncated"] = Value::Bool(true);
+            } else if want_trace {
                 let evs: Vec<Value> = trace
                     .iter()
                     .filter_map(|l| serde_json::from_str::<Value>(l).ok())
@@ -252,6 +255,53 @@ fn handle(req: &Value) -> Value {
                 Ok(Err(e)) => json!({"status": "err", "err": e.to_string()}),
                 Err(e) => json!({"status": "panic", "err": panic_message(e)}),
             }
+        }
+        "concurrent" => {
+            // many different transforms at once in this one process: every case is
+            // run `reps` times, cases spread over `threads` threads that start together
+            let cases: Vec<Value> = req.get("cases").and_then(|c| c.as_array()).cloned().unwrap_or_default();
+            let threads = req.get("threads").and_then(|t| t.as_u64()).unwrap_or(4).max(1) as usize;
+            let reps = req.get("reps").and_then(|t| t.as_u64()).unwrap_or(1);
+            let barrier = Arc::new(std::sync::Barrier::new(threads));
+            let mut handles = Vec::new();
+            for t in 0..threads {
+                let mine: Vec<(usize, Vec<u8>, Result<TransformConfig, String>)> = cases
+                    .iter()
+                    .enumerate()
+                    .filter(|(i, _)| i % threads == t)
+                    .map(|(i, c)| (i, input_bytes(c), cfg_from(c.get("cfg"))))
+                    .collect();
+                let barrier = barrier.clone();
+                handles.push(
+                    std::thread::Builder::new()
+                        .stack_size(8 << 20)
+                        .spawn(move || {
+                            barrier.wait();
+                            let mut out = Vec::new();
+                            for _ in 0..reps {
+                                for (i, input, cfg) in &mine {
+                                    if let Ok(cfg) = cfg {
+                                        let r = run_transform(input, cfg, false, 1000);
+                                        out.push((*i, json!({"status": r["status"], "out": r.get("out"), "err": r.get("err")})));
+                                    }
+                                }
+                            }
+                            out
+                        })
+                        .unwrap(),
+                );
+            }
+            let mut per_case: Vec<Vec<Value>> = vec![Vec::new(); cases.len()];
+            for h in handles {
+                if let Ok(v) = h.join() {
+                    for (i, r) in v {
+                        if !per_case[i].contains(&r) {
+                            per_case[i].push(r);
+                        }
+                    }
+                }
+            }
+            json!({"status": "ok", "results": per_case})
         }
         "ping" => json!({"status": "ok"}),
         other => json!({"status": "toolerr", "err": format!("unknown op {other}")}),
